@@ -241,6 +241,8 @@ pub enum Action {
     /// bootstrapped() whose future is dropped after `cancel_after_ms` if still pending
     BootstrappedCancel { node: usize, tag: String, cancel_after_ms: u64 },
     GetState { node: usize, tag: String },
+    /// one task calling get_state() `n` times back to back (results are not recorded)
+    GetStateBurst { node: usize, n: usize },
     LoadContacts { node: usize, tag: String },
     LocalAddr { node: usize, tag: String },
     /// raw datagram from an arbitrary address to an arbitrary address
@@ -735,6 +737,16 @@ async fn run_inner(sc: &Scenario, mut peers: Vec<Box<dyn Peer>>, chooser: &mut d
                         if let Some(dht) = dhts[*node].clone() {
                             api.lock().unwrap().push(ApiEvent { t_ms: now, tag: tag.clone(), kind: ApiKind::Started });
                             spawn_state(&api, dht, tag.clone(), start);
+                        }
+                    }
+                    Action::GetStateBurst { node, n } => {
+                        if let Some(dht) = dhts[*node].clone() {
+                            let n = *n;
+                            tokio::task::spawn(async move {
+                                for _ in 0..n {
+                                    let _ = dht.get_state().await;
+                                }
+                            });
                         }
                     }
                     Action::LoadContacts { node, tag } => {
